@@ -1870,7 +1870,12 @@ class Converter:
 
     def parse_curie(self, curie: str, *, strict: bool = False) -> ReferenceTuple | None:
         """Parse and standardize a CURIE."""
-        prefix, identifier = _split(curie, sep=self.delimiter)
+        try:
+            prefix, identifier = _split(curie, sep=self.delimiter)
+        except NoCURIEDelimiterError:
+            if strict:
+                raise
+            return None
         norm_prefix = self.standardize_prefix(prefix, strict=False)
         if norm_prefix is None:
             if strict:
